@@ -42,6 +42,15 @@ Descriptors ==
         [op |-> "set_length_prefix", v |-> 255]}
   \cup {[op |-> "json_value", v |-> v] : v \in {"null", "string", "number_neg", "number_huge", "float", "object", "array", "bool", "deep", "absent"}}
 
+\* Compound descriptor (not item-wise, so not in `Descriptors`): a reply that announces far more than it carries.
+\* A count-like item (a literal byte, a numeric or decimal-text field) is set to its largest value, a string item at most
+\* AmplifyWindow items later is repeated - as the shortest distinct strings, with its terminator - until the datagram holds
+\* AmplifyFill bytes, and nothing follows.  The harness applies it to every (count, string) pair of a well-formed exchange
+\* (sampled in the quick tier).  This is the C13 shape "count x list" (found F34: GameSpy 2 rows x column names).
+Amplify == [op |-> "amplify", window |-> 8, fill |-> 48000]
+AmplifyCount(item) == item.k = "lit" \/ (item.k = "f" /\ item.ty \in (NumTypes \ {"u64le", "f32le", "u32le_nz"}) \cup TextNumTypes)
+AmplifyRepeat(item) == item.k = "txt" \/ (item.k = "f" /\ item.ty \in StrTypes)
+
 \* which items a descriptor applies to
 AppliesTo(d, item) ==
   CASE d.op \in {"truncate_at", "truncate_inside"} -> TRUE
